@@ -146,6 +146,7 @@ def lock_variants(kind):
         "negative": b"next_reference_id: -4\n",
         "noninteger": b"next_reference_id: abc\n",
         "bare": b"next_reference_id: 42\n",
+        "valid0": b"next_reference_id: 0\n",          # a lock a person (not the tool) wrote: IDs still start at 1
         # valid locks that are LONGER than what the tool writes: explicit document start (older layout),
         # CRLF line ends, trailing comment lines left by a hand merge
         "valid_doc100": lock_bytes(100).replace(b"next_reference_id", b"---\nnext_reference_id"),
